@@ -64,7 +64,8 @@ func newKernSubtable(table tables.KernSubtable) (out KernSubtable) {
 			out.coverage |= kerxCrossStream
 		}
 	case tables.AATKernSubtableHeader:
-		out.coverage = table.Coverage
+		// the 'kern' coverage has no backwards flag: the bit is unused (as in Harfbuzz)
+		out.coverage = table.Coverage &^ kerxBackwards
 		out.TupleCount = int(table.TupleCount)
 	}
 	switch data := table.Data().(type) {
